@@ -78,8 +78,35 @@ def line (items : List String) : String :=
   let all := other ++ items.filter isW ++ items.filter isDone ++ Topics.sortStrings (items.filter isCb)
   if all.isEmpty then "-" else ";".intercalate all
 
+/-! ### identifiers the library assigns
+
+The reference client does not say *which* identifier the library gives a request that comes
+without one - only that it is non-zero, fits 16 bits and differs from the identifiers in flight
+(`Spec.Client.idAllowed`).  In the specification stream such a request is known by a *name*
+outside the 16-bit range (`Spec.Client.autoName`), printed as `+` (any non-zero identifier)
+followed by `!` and the identifiers it must differ from.  An acknowledgement on an op line names
+its request as `#<tag>`; every stream resolves that to what *it* wrote the request with (the
+scripted peer acknowledges the identifier it received). -/
+
+def specId (excl : String) (id : Nat) : String := if id ≥ 65536 then "+" ++ excl else toString id
+
 open Mqtt.Spec.Client in
-def showSpec : SOut → String
+/-- packet text of the specification stream: named identifiers are printed as `+` -/
+def showPktS (excl : String) : Packet → String
+  | .publish pb =>
+    if pb.qos == 0 then showPkt (.publish pb) else
+    s!"PUB {Broker.b01 pb.dup} {pb.qos} {Broker.b01 pb.retain} {hexOf pb.topic} {specId excl pb.pktid} {hexOf pb.payload}"
+  | .subscribe id ts => s!"SUBSCRIBE {specId excl id} " ++ ",".intercalate (ts.map (fun t => s!"{hexOf t.1}:{t.2}"))
+  | .unsubscribe id ts => s!"UNSUBSCRIBE {specId excl id} " ++ ",".intercalate (ts.map hexOf)
+  | .puback id => s!"PUBACK {specId "" id}"
+  | .pubrec id => s!"PUBREC {specId "" id}"
+  | .pubrel id => s!"PUBREL {specId "" id}"
+  | .pubcomp id => s!"PUBCOMP {specId "" id}"
+  | p => showPkt p
+
+open Mqtt.Spec.Client in
+def showSpec (excl : String) : SOut → String
+  | .out (.wrote p) => "W " ++ showPktS excl p
   | .out o => showOut o
   | .wroteAutoId p => "W " ++ autoId p
   | .deliverTo cb t p => s!"CB {cb} PUB * * * {hexOf t} * {hexOf p}"
@@ -89,12 +116,52 @@ structure St where
   m : Mqtt.Model.Client.C := {}
   s : Mqtt.Spec.Client.S := {}
   cbs : List Nat := []       -- message callback ids used by the Subscribe calls of this episode
+  mIds : List (Nat × Nat) := []   -- completion tag ↦ identifier the model wrote the request with
+  sIds : List (Nat × Nat) := []   -- completion tag ↦ identifier / name the reference client knows it by
+  autos : Nat := 0                -- requests named so far
 
 /-- the callback id of a Subscribe call -/
-def subCb : Ev → Option Nat
-  | .api (.subscribe _ _ _ cb) => some cb
-  | .apiEarlyAck (.subscribe _ _ _ cb) _ => some cb
+def subCb : Api → Option Nat
+  | .subscribe _ _ _ cb => some cb
   | _ => none
+
+/-- identifier field and completion tag of a call whose request carries an identifier -/
+def reqOf : Api → Option (Nat × Nat)
+  | .publish p tag => if p.qos == 0 then none else some (p.pktid, tag)
+  | .subscribe id _ tag _ => some (id, tag)
+  | .unsubscribe id _ tag => some (id, tag)
+  | .ping _ => none
+
+def withId (id : Nat) : Api → Api
+  | .publish p tag => .publish { p with pktid := id } tag
+  | .subscribe _ ts tag cb => .subscribe id ts tag cb
+  | .unsubscribe _ ts tag => .unsubscribe id ts tag
+  | a => a
+
+def writtenId : Out → Option Nat
+  | .wrote (.publish p) => if p.qos == 0 then none else some p.pktid
+  | .wrote (.subscribe id _) => some id
+  | .wrote (.unsubscribe id _) => some id
+  | _ => none
+
+/-- replace the words `#<tag>` by the identifier recorded for the tag (0 if none) -/
+def resolve (ids : List (Nat × Nat)) (ws : List String) : List String :=
+  ws.map (fun w => if w.startsWith "#" then
+    toString (((w.drop 1).toNat?.bind (fun t => ids.lookup t)).getD 0) else w)
+
+/-- the words of an event line: (kind, call words, acknowledgement words) -/
+def splitEv : List String → String × List String × List String
+  | "api" :: rest => ("api", rest, [])
+  | "early" :: rest => let (a, b) := splitAt rest "|"; ("early", a, b)
+  | "peer" :: rest => ("peer", [], rest)
+  | _ => ("", [], [])
+
+def mkEv (kind : String) (call : Option Api) (ack : List String) : Option Ev :=
+  match kind, call with
+  | "api", some c => some (.api c)
+  | "early", some c => (parsePeer ack).map (.apiEarlyAck c)
+  | "peer", _ => (parsePeer ack).map .peer
+  | _, _ => none
 
 /-- A callback id stands for the *request* (`service.subscribe` allocates one `&onPublish` pointer
 per call): a Subscribe under an id that an earlier Subscribe of the episode used is refused
@@ -102,19 +169,49 @@ per call): a Subscribe under an id that an earlier Subscribe of the episode used
 def handle (st : St) (ws : List String) : St × String × String :=
   match ws with
   | ["reset"] => ({}, "reset", "reset")
-  | _ =>
+  | ["setctr", n] =>
+    -- other users of the process-wide counter advanced it; the reference client has no counter
+    match n.toNat? with
+    | some v => ({ st with m := { st.m with ctr := v } }, "setctr", "setctr")
+    | none => (st, "bad-op", "bad-op")
+  | "connect" :: _ =>
     match parseEv ws with
     | none => (st, "bad-op", "bad-op")
     | some ev =>
-      match subCb ev with
-      | some cb =>
-        if st.cbs.contains cb then (st, "bad-op", "bad-op") else
-        let (m, mo) := Mqtt.Model.Client.step st.m ev
-        let (s, so) := Mqtt.Spec.Client.step st.s ev
-        (⟨m, s, cb :: st.cbs⟩, line (mo.map showOut), line (so.map showSpec))
-      | none =>
-        let (m, mo) := Mqtt.Model.Client.step st.m ev
-        let (s, so) := Mqtt.Spec.Client.step st.s ev
-        (⟨m, s, st.cbs⟩, line (mo.map showOut), line (so.map showSpec))
+      let (m, mo) := Mqtt.Model.Client.step st.m ev
+      let (s, so) := Mqtt.Spec.Client.step st.s ev
+      ({ st with m := m, s := s }, line (mo.map showOut), line (so.map (showSpec "")))
+  | _ =>
+    let (kind, callWs, ackWs) := splitEv ws
+    let call := parseApi callWs
+    if kind == "" || (kind != "peer" && call.isNone) then (st, "bad-op", "bad-op") else
+    let cb := call.bind subCb
+    if (cb.map st.cbs.contains).getD false then (st, "bad-op", "bad-op") else
+    let cbs := match cb with | some x => x :: st.cbs | none => st.cbs
+    let req := call.bind reqOf
+    -- model stream: the request is known by the identifier the model writes it with
+    let mIds := match call, req with
+      | some c, some (_, tag) =>
+        if st.m.connected then
+          match (Mqtt.Model.Client.apiWrite st.m c).2.1.findSome? writtenId with
+          | some id => (tag, id) :: st.mIds
+          | none => st.mIds
+        else st.mIds
+      | _, _ => st.mIds
+    -- specification stream: a request without identifier gets a name
+    let named := match req with | some (id, _) => id == 0 && st.s.connected | none => false
+    let name := Mqtt.Spec.Client.autoName st.autos
+    let callS := if named then call.map (withId name) else call
+    let sIds := match req with
+      | some (id, tag) => if st.s.connected then (tag, if named then name else id) :: st.sIds else st.sIds
+      | none => st.sIds
+    let excl := "!" ++ ",".intercalate ((Mqtt.Spec.Client.inFlight st.s).filter (· < 65536) |>.map toString)
+    match mkEv kind call (resolve mIds ackWs), mkEv kind callS (resolve sIds ackWs) with
+    | some evM, some evS =>
+      let (m, mo) := Mqtt.Model.Client.step st.m evM
+      let (s, so) := Mqtt.Spec.Client.step st.s evS
+      (⟨m, s, cbs, mIds, sIds, if named then st.autos + 1 else st.autos⟩,
+       line (mo.map showOut), line (so.map (showSpec excl)))
+    | _, _ => (st, "bad-op", "bad-op")
 
 end Mqtt.Driver.Client
